@@ -32,7 +32,7 @@ instance (a b : α) : Decidable (a ≤ b) := Scalar.decLe a b
 /-- rational constant `p/q` in the model -/
 @[reducible] def q (p d : Nat) : α := Scalar.ofNat p / Scalar.ofNat d
 
-def sq (x : α) : α := x * x
+def sqr (x : α) : α := x * x
 def cube (x : α) : α := x * x * x
 def max (a b : α) : α := if a < b then b else a
 def min (a b : α) : α := if b < a then b else a
